@@ -1,0 +1,81 @@
+//go:build verif
+
+// Contracts for package linktracker (property C19, used by C03/C24). Comment-only: read by
+// /verif/bin/gsv, never compiled into the package.
+
+package linktracker
+
+//@ -- history ghost: per tracker, the requests that recorded at least one missing link since they started
+//@ ghost ltMissed map[ref]set[ref]
+
+//@ -- abstraction: reference count of a link, the links a request recorded with a block
+//@ pred rc(lt *LinkTracker, l ipld.Link) := ite(l in lt.traversalsWithBlocksInProgress, lt.traversalsWithBlocksInProgress[l], 0)
+//@ pred occ(lt *LinkTracker, r graphsync.RequestID, l ipld.Link) :=
+//@      ite(r in lt.linksWithBlocksTraversedByRequest, Occ(lt.linksWithBlocksTraversedByRequest[r], l), 0)
+//@ pred total(lt *LinkTracker, l ipld.Link) := Tot(domain(lt.linksWithBlocksTraversedByRequest), values(lt.linksWithBlocksTraversedByRequest), l)
+
+//@ -- representation invariant (L of DESIGN.md §4 C19)
+//@ pred invLT(lt *LinkTracker) := lt.missingBlocks != nil && lt.linksWithBlocksTraversedByRequest != nil && lt.traversalsWithBlocksInProgress != nil
+//@    && (forall l ipld.Link :: l in lt.traversalsWithBlocksInProgress ==> lt.traversalsWithBlocksInProgress[l] > 0)
+//@    && (forall l ipld.Link :: rc(lt, l) == total(lt, l))
+//@    && (forall r graphsync.RequestID :: (r in lt.missingBlocks) <==> ltMissed[lt][r])
+//@    && (forall r graphsync.RequestID :: r in lt.missingBlocks ==> lt.missingBlocks[r] != nil)
+
+//@ func New
+//@   modifies alloc, ltMissed, LinkTracker.missingBlocks, LinkTracker.linksWithBlocksTraversedByRequest, LinkTracker.traversalsWithBlocksInProgress
+//@   ghost ltMissed := upd(old(ltMissed), result, emptyset(ref))
+//@   ensures result != nil && !old(isalloc(result)) && invLT(result)
+//@   ensures (forall r graphsync.RequestID :: !(r in result.linksWithBlocksTraversedByRequest) && !(r in result.missingBlocks))
+//@   ensures (forall l ipld.Link :: rc(result, l) == 0)
+
+//@ func LinkTracker.BlockRefCount
+//@   requires invLT(lt)
+//@   modifies nothing
+//@   ensures result == rc(lt, link)
+//@   -- a zero count means no request still in progress has recorded this link with a block
+//@   ensures result == 0 ==> (forall r graphsync.RequestID :: occ(lt, r, link) == 0)
+//@   use tot_member(domain(lt.linksWithBlocksTraversedByRequest), values(lt.linksWithBlocksTraversedByRequest), link)
+
+//@ func LinkTracker.IsKnownMissingLink
+//@   requires invLT(lt)
+//@   modifies nothing
+//@   ensures result ==> ltMissed[lt][requestID]
+
+//@ func LinkTracker.RecordLinkTraversal
+//@   overflow checked
+//@   requires invLT(lt) && rc(lt, link) < 9223372036854775807
+//@   modifies alloc, lt.missingBlocks[*], lt.linksWithBlocksTraversedByRequest[*], lt.traversalsWithBlocksInProgress[*], lt.missingBlocks[requestID][*]
+//@   ghost ltMissed := ite(hasBlock, old(ltMissed), upd(old(ltMissed), lt, add(old(ltMissed)[lt], requestID)))
+//@   ensures invLT(lt)
+//@   ensures hasBlock ==> rc(lt, link) == old(rc(lt, link)) + 1 && occ(lt, requestID, link) == old(occ(lt, requestID, link)) + 1
+//@   ensures hasBlock ==> (forall l ipld.Link :: l != link ==> rc(lt, l) == old(rc(lt, l)))
+//@   ensures hasBlock ==> (forall r graphsync.RequestID, l ipld.Link :: (r != requestID || l != link) ==> occ(lt, r, l) == old(occ(lt, r, l)))
+//@   ensures !hasBlock ==> (forall l ipld.Link :: rc(lt, l) == old(rc(lt, l)))
+//@   ensures !hasBlock ==> (forall r graphsync.RequestID, l ipld.Link :: occ(lt, r, l) == old(occ(lt, r, l)))
+//@   ensures !hasBlock ==> ltMissed[lt][requestID]
+
+//@ func LinkTracker.FinishRequest
+//@   overflow checked
+//@   requires invLT(lt)
+//@   modifies lt.missingBlocks[*], lt.linksWithBlocksTraversedByRequest[*], lt.traversalsWithBlocksInProgress[*]
+//@   ghost ltMissed := upd(old(ltMissed), lt, del(old(ltMissed)[lt], requestID))
+//@   ensures invLT(lt)
+//@   -- complete-full exactly when the request recorded no missing link
+//@   ensures hasAllBlocks == !old(ltMissed[lt][requestID])
+//@   -- afterwards nothing mentions the request, and exactly its recorded occurrences are released
+//@   ensures !(requestID in lt.linksWithBlocksTraversedByRequest) && !(requestID in lt.missingBlocks)
+//@   ensures forall l ipld.Link :: rc(lt, l) == old(rc(lt, l)) - old(occ(lt, requestID, l))
+//@   ensures forall r graphsync.RequestID, l ipld.Link :: r != requestID ==> occ(lt, r, l) == old(occ(lt, r, l))
+//@   loop 1 invariant lt.traversalsWithBlocksInProgress != nil
+//@   loop 1 invariant forall l ipld.Link :: l in lt.traversalsWithBlocksInProgress ==> lt.traversalsWithBlocksInProgress[l] > 0
+//@   loop 1 invariant forall l ipld.Link :: rc(lt, l) == old(rc(lt, l)) - Occ(links, l) + Occ(links[idx1:], l)
+//@   use occ_unfold(links[idx1:])
+//@   use tot_member(old(domain(lt.linksWithBlocksTraversedByRequest)), old(values(lt.linksWithBlocksTraversedByRequest)), link)
+
+//@ func LinkTracker.Empty
+//@   requires invLT(lt)
+//@   modifies nothing
+//@   ensures result == ((forall r graphsync.RequestID :: !(r in lt.missingBlocks)) && (forall l ipld.Link :: !(l in lt.traversalsWithBlocksInProgress)))
+//@   -- no request in progress ==> no tracking state at all
+//@   ensures (forall r graphsync.RequestID :: !(r in lt.linksWithBlocksTraversedByRequest) && !(r in lt.missingBlocks)) ==> result
+//@   use tot_none(domain(lt.linksWithBlocksTraversedByRequest), values(lt.linksWithBlocksTraversedByRequest))
